@@ -1849,12 +1849,14 @@ class C03(Prop):
                 "const-array-write", "swizzle-repeat-write", "cbuffer-write", "static-const-global-write", "out-other-scalar", "out-other-vector", "inout-other-vector",
                 "out-wider-vector", "out-member-of-const", "out-swizzle-repeat", "out-enum-for-int",
                 "const-nested-member-write", "const-nested-array-write", "const-nested-incr", "out-nested-member-of-const", "cbuffer-nested-write", "const-array-of-struct-write",
-                "mswz-row-out-of-range", "mswz-col-out-of-range", "mswz-pair-out-of-range", "mswz-out-arg-out-of-range", "swz-out-of-range"}
+                "mswz-row-out-of-range", "mswz-col-out-of-range", "mswz-pair-out-of-range", "mswz-out-arg-out-of-range", "swz-out-of-range",
+                "method-out-const", "method-out-cbuffer", "method-inout-member-of-const", "method-out-rvalue", "method-out-other-scalar", "method-arity-more", "method-arity-less",
+                "method-out-swizzle-of-const", "intrinsic-method-out-const", "intrinsic-method-out-cbuffer", "intrinsic-method-out-rvalue"}
     assumptions = [
         "theorems are about the checker `wt` (coq/model/IRType.v), the specification of well-typed IR: a passed check means every node's type is the one derived bottom-up, every operand has exactly the required type, writes go to lvalues whose path goes through nothing const, calls match their signature, returns and initialisers match; there is no model of the elaborator, so 'every accepted program passes' is observed (the extracted checker runs on the IR of every program the harness type checks), not proved",
         "each node of the dump carries the type Expression::get_type answers (its assertions are caught and reported as IRFAULT); nodes the checker does not model (object members, matrix swizzles, mesh / make-signed intrinsics) are taken at that type, their operands are still checked",
         "conditions of if / while / for are not required to be bool and aggregate initialisers are only checked element by element (the property's list does not name them)",
-        "rejection: a well-typed generated program plus one function with a single injected violation must be rejected; 41 violation kinds are demanded (writes to const / non-lvalues in every form, out / inout arguments, arity, unconvertible arguments, wrong returns), 11 further kinds are counted only",
+        "rejection: a well-typed generated program plus one function with a single injected violation must be rejected; 52 violation kinds are demanded (writes to const / non-lvalues in every form, out / inout arguments, arity, unconvertible arguments, wrong returns - at calls of functions, of struct methods and of methods of intrinsic objects), 11 further kinds are counted only",
     ]
 
     def kind(self, case):
